@@ -15,6 +15,7 @@ import (
 	"github.com/vapourismo/knx-go/knx/util"
 	"github.com/vapourismo/knx-go/verifmc/mc"
 	"github.com/vapourismo/knx-go/verifmc/vnet"
+	"verifh/enum/refenc"
 	"verifh/harness/h"
 )
 
@@ -1074,4 +1075,152 @@ func c15SendEachOracle(tr *mc.Trace) []h.Violation {
 		vs[i].Class = strings.Replace(vs[i].Class, "C16:", "C15:", 1)
 	}
 	return vs
+}
+
+// ---- C03: telegrams of several shapes in succession through the real socket layer ----
+//
+// Seeded change C03-l: the socket's Send packs into buffers recycled through a sync.Pool and
+// AppData.Pack no longer clears the first data octet before OR-ing the application code into it -
+// each harmless alone; together a group read (no data) that follows a write leaves the socket with
+// the write's low six data bits, and its retransmission (another buffer) differs from its first
+// transmission. Every ordered triple of eight telegram shapes is sent through the real tunnel on
+// the real socket layer; the first transmission of every request stays unanswered; every datagram
+// that carries a tunnelling request must be the reference encoding (enum/refenc) of the request
+// handed to Send with the connection's channel and the next number.
+func c03Shapes() []cemi.TransportUnit {
+	long := make([]byte, 20)
+	for i := range long {
+		long[i] = 0xFF
+	}
+	long[0] = 0x3F
+	return []cemi.TransportUnit{
+		&cemi.AppData{Command: cemi.GroupValueRead},
+		&cemi.AppData{Command: cemi.GroupValueWrite, Data: []byte{0x2A}},
+		&cemi.AppData{Command: cemi.GroupValueWrite, Data: []byte{0x3F}},
+		&cemi.AppData{Command: cemi.GroupValueResponse, Data: []byte{0x00}},
+		&cemi.AppData{Command: cemi.GroupValueWrite, Data: []byte{0x3F, 0xFF, 0xFF}},
+		&cemi.AppData{Command: cemi.GroupValueWrite, Data: long},
+		&cemi.AppData{Command: cemi.GroupValueResponse, Data: []byte{}},
+		&cemi.ControlData{Command: 1},
+	}
+}
+
+type ShapeSend struct {
+	N     int
+	Shape int
+	Hex   string
+}
+
+func (s ShapeSend) String() string {
+	return fmt.Sprintf("SHAPE-SEND #%d shape=%d %s", s.N, s.Shape, s.Hex)
+}
+
+func c03FullStackShapes() func() {
+	return func() {
+		w := vnet.Reset()
+		seen := map[uint8]int{}
+		w.OnCreate = func(e *vnet.Endpoint) {
+			e.OnWrite = func(wr vnet.WriteRec) {
+				mc.Log(Wrote{hex.EncodeToString(wr.Data)})
+				b := wr.Data
+				if len(b) < 10 {
+					return
+				}
+				switch {
+				case b[2] == 0x02 && b[3] == 0x05:
+					e.Inject(refenc.ConnRes(7, 0, refenc.HPAI(1, [4]byte{192, 0, 2, 99}, 3671), 0x1101), nil)
+				case b[2] == 0x04 && b[3] == 0x20:
+					seen[b[8]]++
+					if seen[b[8]] >= 2 { // the first transmission stays unanswered
+						e.Inject(refenc.TunnelAck(b[7], b[8], 0), nil)
+					}
+				}
+			}
+		}
+		t, err := knx.NewTunnel("192.0.2.99:3671", knxnet.TunnelLayerData, TCfg(100, 350, 100000000))
+		if err != nil {
+			mc.Log(Note("connect failed: " + err.Error()))
+			return
+		}
+		mc.GoEnv("reader", func() {
+			for {
+				if _, ok := t.Inbound().Recv2(); !ok {
+					return
+				}
+			}
+		})
+		shapes := c03Shapes()
+		for n := 0; n < 3; n++ {
+			k := mc.Choose(len(shapes), mc.Free)
+			unit := shapes[k]
+			c1 := cemi.Control1StdFrame | cemi.Control1NoRepeat
+			if a, ok := unit.(*cemi.AppData); ok && len(a.Data) > 15 {
+				c1 = cemi.Control1NoRepeat
+			}
+			m := &cemi.LDataReq{LData: cemi.LData{Control1: c1, Control2: cemi.Control2GroupAddr | cemi.Control2Hops(6), Source: 0, Destination: uint16(0x0A00 + n), Data: unit}}
+			want, err := refenc.Encode(&knxnet.TunnelReq{Channel: 7, SeqNumber: uint8(n), Payload: m})
+			if err != nil {
+				mc.Log(Note("reference encoder: " + err.Error()))
+				return
+			}
+			mc.Log(ShapeSend{n, k, hex.EncodeToString(want)})
+			err = t.Send(m)
+			mc.Log(Ret{"Send", n, errStr(err), mc.Now()})
+		}
+		mc.Sleep(50 * ms)
+		t.Close()
+	}
+}
+
+func c03FullStackShapesOracle(tr *mc.Trace) []h.Violation {
+	vs := generic(tr, "C03", true)
+	want := map[int]string{}
+	var shapes []int
+	for _, e := range tr.Log {
+		switch x := e.V.(type) {
+		case ShapeSend:
+			want[x.N] = x.Hex
+			shapes = append(shapes, x.Shape)
+		case Ret:
+			if x.Call == "Send" && x.Err != "" {
+				vs = append(vs, h.Violation{Class: "C03:fullstack-send-failed", Msg: fmt.Sprintf("telegram shapes %v: Send %d failed: %s", shapes, x.ID, x.Err)})
+			}
+		}
+	}
+	count := map[int]int{}
+	for _, e := range tr.Log {
+		wr, ok := e.V.(Wrote)
+		if !ok {
+			continue
+		}
+		b, _ := hex.DecodeString(wr.Hex)
+		if len(b) < 6 || (int(b[4])<<8|int(b[5])) != len(b) {
+			vs = append(vs, h.Violation{Class: "C03:transmission-corrupt", Msg: fmt.Sprintf("a buffer of %d octets left the socket whose header announces %d: %s", len(b), int(b[4])<<8|int(b[5]), wr.Hex)})
+			continue
+		}
+		if b[2] == 0x04 && b[3] == 0x20 && len(b) > 8 {
+			n := int(b[8])
+			count[n]++
+			if w, ok := want[n]; !ok || wr.Hex != w {
+				class := "C03:transmission-differs-from-the-request"
+				if count[n] > 1 {
+					class = "C03:retransmission-differs"
+				}
+				vs = append(vs, h.Violation{Class: class, Msg: fmt.Sprintf("telegram shapes %v in succession: transmission %d of request %d is %s; the request handed to Send encodes as %s", shapes, count[n], n, wr.Hex, w)})
+			}
+		}
+	}
+	if tr.Reason == "main-returned" {
+		for n := range want {
+			if count[n] != 2 {
+				vs = append(vs, h.Violation{Class: "C03:fullstack-transmission-count", Msg: fmt.Sprintf("telegram shapes %v: %d transmissions of request %d, want 2 (first one unanswered, retransmission acknowledged)", shapes, count[n], n)})
+			}
+		}
+	}
+	return vs
+}
+
+func init() {
+	register("both", &h.Scenario{Name: "C03-fullstack-every-triple-of-eight-telegram-shapes", Prop: "C03", P: 0, F: 0, D: -1, Run: c03FullStackShapes(), Check: c03FullStackShapesOracle})
+	register("thorough", &h.Scenario{Name: "C03-fullstack-three-telegram-shapes-P1", Prop: "C03", P: 1, F: 0, D: 1, Run: c03FullStackShapes(), Check: c03FullStackShapesOracle})
 }
